@@ -51,6 +51,20 @@ func init() {
 		sb.WriteString("\n-- (callee, Put holds rwMutex at the call, the callee locks rwMutex itself), in source order\n")
 		sb.WriteString("def putCalls : List (String × Bool × Bool) := [" + strings.Join(calls, ", ") + "]\n")
 
+		var problems []string
+		// ---- what Put does with queue state BEFORE it holds rwMutex (nothing, in the source the
+		// model was written against: the sequence is read inside persistMetaOfMessage, under the lock)
+		sb.WriteString("\ndef putUnlockedQueueAccesses : List String := " + LeanStrList(c05UnlockedAccesses(put)) + "\n")
+		pm := FindFunc(qf, "queue", "persistMetaOfMessage")
+		var pparams []string
+		if pm != nil && pm.Type.Params != nil {
+			for _, f := range pm.Type.Params.List {
+				for _, n := range f.Names {
+					pparams = append(pparams, n.Name)
+				}
+			}
+		}
+		sb.WriteString("\ndef persistParams : List String := " + LeanStrList(pparams) + "\n")
 		// ---- guards
 		type g struct {
 			fn, lean string
@@ -71,7 +85,10 @@ func init() {
 			cond := c05NthIf(fd, x.nth)
 			def, err := CondDef(c05Flatten(cond, c05Recv(fd)), x.lean, x.params, cs)
 			if err != nil {
-				return "", err
+				// the guard is no longer where/what it was: keep the module compiling (the model and the
+				// oracle must still run) and let the tie theorems fail on the recorded problem
+				problems = append(problems, err.Error())
+				def = c05Placeholder(x.lean, x.params, "Bool", "false")
 			}
 			sb.WriteString("\n" + def)
 		}
@@ -96,7 +113,8 @@ func init() {
 			}
 			def, err := ExprDef(c05Flatten(FindAssign(fd, x.v), c05Recv(fd)), x.lean, x.params, cs, nil)
 			if err != nil {
-				return "", err
+				problems = append(problems, err.Error())
+				def = c05Placeholder(x.lean, x.params, "Int", "(-1)")
 			}
 			sb.WriteString("\n" + def)
 		}
@@ -161,6 +179,7 @@ func init() {
 		}
 		sb.WriteString("\ndef readBytesBody : List String := " + LeanStrList(rbody) + "\n")
 		sb.WriteString("\ndef writeBytesBody : List String := " + LeanStrList(body) + "\n")
+		sb.WriteString("\n-- facts that could not be re-extracted (placeholders were emitted for them)\ndef extractionProblems : List String := " + LeanStrList(problems) + "\n")
 		return sb.String(), nil
 	}})
 }
@@ -414,5 +433,70 @@ func c05Loops(fd *ast.FuncDecl) []string {
 		}
 		return true
 	})
+	return out
+}
+
+// c05Placeholder emits a definition with the expected signature and a value no tie accepts.
+func c05Placeholder(name string, params []string, typ, val string) string {
+	var sb strings.Builder
+	fmt.Fprintf(&sb, "def %s", name)
+	for _, p := range params {
+		fmt.Fprintf(&sb, " (_%s : Int)", p)
+	}
+	fmt.Fprintf(&sb, " : %s :=\n  %s -- NOT FOUND in the source\n", typ, val)
+	return sb.String()
+}
+
+// c05UnlockedAccesses lists the calls on fields of the receiver (q.f.M(...)) and assignments to
+// receiver fields that Put makes while it does not hold rwMutex (lock calls themselves excluded).
+func c05UnlockedAccesses(put *ast.FuncDecl) []string {
+	recv := c05Recv(put)
+	held := false
+	var out []string
+	rooted := func(e ast.Expr) bool {
+		for {
+			switch x := e.(type) {
+			case *ast.SelectorExpr:
+				e = x.X
+			case *ast.Ident:
+				return x.Name == recv
+			default:
+				return false
+			}
+		}
+	}
+	var visit func(n ast.Node)
+	visit = func(n ast.Node) {
+		ast.Inspect(n, func(m ast.Node) bool {
+			switch x := m.(type) {
+			case *ast.DeferStmt:
+				return false
+			case *ast.AssignStmt:
+				for _, l := range x.Lhs {
+					if se, ok := l.(*ast.SelectorExpr); ok && rooted(se) && !held {
+						out = append(out, c05Text(x))
+					}
+				}
+			case *ast.CallExpr:
+				for _, a := range x.Args {
+					visit(a)
+				}
+				if se, ok := x.Fun.(*ast.SelectorExpr); ok {
+					if in, ok := se.X.(*ast.SelectorExpr); ok && in.Sel.Name == "rwMutex" {
+						held = se.Sel.Name == "Lock"
+						return false
+					}
+					if in, ok := se.X.(*ast.SelectorExpr); ok && rooted(in) && !held {
+						out = append(out, types.ExprString(x))
+					}
+				}
+				return false
+			}
+			return true
+		})
+	}
+	for _, st := range put.Body.List {
+		visit(st)
+	}
 	return out
 }
